@@ -103,14 +103,89 @@ theorem statusLine_error_kind (line : Str) (e : Err) (h : parseResponseLine line
 example : Spec.StatusLine (ofAscii "HTTP/1.1 200 OK") (ofAscii "HTTP/1.1") 200 (some (ofAscii "OK")) :=
   ⟨ofAscii "200", ofAscii "OK", by decide, by decide, by decide, by decide, by decide, by decide, by decide⟩
 
-/-! ### `_parse_header` never raises? -/
+/-! ### `_parse_header` never raises (after the `fix:` commit for the RFC 2231 finding) -/
 
-/-- the full statement: no input makes `_parse_header` raise -/
-def parseHeader_total_full : Prop := ∀ line : Str, Spec.isUncaught (parseHeader line) = false
+/-- one RFC 2231 parameter whose continuations `decode_params` can sort decodes without an exception (the charset
+    ValueError is caught by the fixed `_parse_header`) -/
+theorem catchValueError_not_uncaught (r : Except Err Str) (t : Str) : Spec.isUncaught (catchValueError r t) = false := by
+  cases r with
+  | ok v => rfl
+  | error e => cases e <;> rfl
 
-/-- `parseHeader_total_partial`: when no parameter name has the RFC 2231 shape `name*`, `name*N`, `name*N*`
-    the parser returns a result — for every such line. -/
-theorem parseHeader_total_partial (line : Str)
+theorem rfc2231Value_not_uncaught (conts : List Seg)
+    (h : (conts.any (fun c => c.1.isNone) && conts.any (fun c => c.1.isSome)) = false) :
+    Spec.isUncaught (rfc2231Value conts) = false := by
+  unfold rfc2231Value
+  simp only [h, Bool.false_eq_true, if_false]
+  split
+  · split
+    · rfl
+    · split
+      · rfl
+      · exact catchValueError_not_uncaught _ _
+  · rfl
+
+theorem foldlM_rfc2231_not_uncaught (l : List (Str × List Seg)) (d0 : List (Str × Str))
+    (h : ∀ p ∈ l, Spec.isUncaught (rfc2231Value p.2) = false) :
+    Spec.isUncaught (l.foldlM (fun d (n, conts) => (rfc2231Value conts).map (fun v => dset n v d)) d0) = false := by
+  induction l generalizing d0 with
+  | nil => rfl
+  | cons p ps ih =>
+    obtain ⟨n, conts⟩ := p
+    have hp : Spec.isUncaught (rfc2231Value conts) = false := h (n, conts) List.mem_cons_self
+    simp only [List.foldlM_cons]
+    cases hv : rfc2231Value conts with
+    | error e =>
+      rw [hv] at hp
+      cases e with
+      | uncaught k => exact Bool.noConfusion hp
+      | httpInput => rfl
+      | unmodelled => rfl
+    | ok v => exact ih _ (fun q hq => h q (List.mem_cons_of_mem _ hq))
+
+theorem withKey_not_uncaught (key : Str) (r : Except Err (List (Str × Str))) (h : Spec.isUncaught r = false) :
+    Spec.isUncaught (match r with
+      | .error e => (.error e : Except Err (Str × List (Str × Str)))
+      | .ok d => .ok (key, d)) = false := by
+  cases r with
+  | ok d => rfl
+  | error e =>
+    cases e with
+    | uncaught k => exact Bool.noConfusion h
+    | httpInput => rfl
+    | unmodelled => rfl
+
+/-- `parseHeader_total` (the clause "the header-parameter parser never raises", full strength): for EVERY line the
+    fixed `_parse_header` returns or — for an RFC 2231 charset naming a codec outside the model — stays inside the stdlib
+    codec call, which the fix wraps in `except ValueError`; no exception type escapes. -/
+theorem parseHeader_total (line : Str) : Spec.isUncaught (parseHeader line) = false := by
+  unfold parseHeader
+  have hne : parseparam line ≠ [] := by
+    simp only [parseparam, ne_eq, List.map_eq_nil_iff]
+    exact segs_ne_nil line false false
+  cases hp : parseparam line with
+  | nil => exact absurd hp hne
+  | cons key ps =>
+    simp only
+    cases hg : groupParams (rawParams ps) {} with
+    | error e => rfl
+    | ok g =>
+      simp only
+      cases hm : mixedConts g.ext with
+      | true => rfl
+      | false =>
+        simp only [Bool.false_eq_true, if_false]
+        have hall : ∀ p ∈ g.ext, Spec.isUncaught (rfc2231Value p.2) = false := by
+          intro p hp'
+          apply rfc2231Value_not_uncaught
+          unfold mixedConts at hm
+          rw [List.any_eq_false] at hm
+          exact Bool.of_not_eq_true (hm p hp')
+        exact withKey_not_uncaught key _ (foldlM_rfc2231_not_uncaught g.ext _ hall)
+
+/-- `parseHeader_plain_returns`: when no parameter name has the RFC 2231 shape `name*`, `name*N`, `name*N*` the parser
+    returns a result (not even `unmodelled`) — for every such line. -/
+theorem parseHeader_plain_returns (line : Str)
     (h : ∀ p ∈ rawParams (parseparam line).tail, continuation p.1 = none) : ∃ r, parseHeader line = .ok r := by
   unfold parseHeader
   have hne : parseparam line ≠ [] := by
@@ -125,18 +200,19 @@ theorem parseHeader_total_partial (line : Str)
     simp only [hg]
     have : g'.ext = [] := he
     rw [this]
-    simp only [List.any_nil, Bool.false_eq_true, if_false]
+    simp only [mixedConts, List.any_nil, Bool.false_eq_true, if_false]
     exact ⟨_, rfl⟩
 
 example : ∀ p ∈ rawParams (parseparam [102, 59, 32, 110, 61, 34, 120, 34]).tail, continuation p.1 = none := by decide
 
-/-- `parseHeader_total_refuted` (known finding `parse_header/uncaught/TypeError/rfc2231`): `a; x*1=a; x*=b` raises
-    TypeError inside `email.utils.decode_params` (sorting `(None, …)` against `(1, …)`). -/
-theorem parseHeader_total_refuted : ¬ parseHeader_total_full := by
-  intro h
-  have := h [97, 59, 32, 120, 42, 49, 61, 97, 59, 32, 120, 42, 61, 98]
-  revert this
-  decide
+/-- the four recorded witnesses of the former known finding, evaluated on the fixed model:
+    `a; x*1=a; x*=b` (was TypeError) keeps both parameters under their literal names; -/
+example : (parseHeader (ofAscii "a; x*1=a; x*=b")).toOption =
+    some (ofAscii "a", [(ofAscii "x*1", ofAscii "a"), (ofAscii "x*", ofAscii "b")]) := by decide
+/-- `a; x*=a%00b''abc` (was ValueError: NUL in the charset name) gives the undecoded text -/
+example : (parseHeader (ofAscii "a; x*=a%00b''abc")).toOption = some (ofAscii "a", [(ofAscii "x", ofAscii "abc")]) := by decide
+/-- a well-formed extended parameter is decoded as before: `a; f*=latin-1''%41` -/
+example : (parseHeader (ofAscii "a; f*=latin-1''%41")).toOption = some (ofAscii "a", [(ofAscii "f", ofAscii "A")]) := by decide
 
 /-! ### `is_valid_ip` (the resolver `gai` is a parameter) -/
 
